@@ -276,6 +276,21 @@ def rule_call_signature(check):
             x = hir.peel(x["recv"])
         ok = chain == ["iter_mut"] and (hir.place(x) or "").endswith(".args")
     check.expect(ok, R, R + "/all-args-in-order", hir.loc(g.rec), "every call argument is processed, in order", "call arguments are not all processed in order (%s)" % (chain if fe else "no for_each"))
+    # .apply(this, [a, b]) reports a and b; .call reports the arguments as they are
+    ifs = [n for n in hir.walk(g.body) if n.get("k") == "If"]
+    ok = False
+    for n in ifs:
+        at = gate.atom(g, {"t": "bool", "e": n["cond"], "v": True})
+        if at[0] == "eq" and at[3] is True and ("lit", "apply") in (at[1], at[2]):
+            th = (_ctor_name(hir.peel(n["then"])) or "").split("::")[-1]
+            el = (_ctor_name(hir.peel(n["else"])) or "").split("::")[-1] if "else" in n else ""
+            ok = th == "Yes" and el == "No"
+    pn = [b for b in g.bindings().values() if b["name"] == "prop_name"]
+    dflt = False
+    if pn and pn[0]["origin"][1] is not None:
+        init = hir.peel(pn[0]["origin"][1])
+        dflt = hir.is_call(init) and (hir.callee_name(init) or init.get("method")) == "unwrap_or" and hir.lit_value(hir.call_args(init)[1]) == "call"
+    check.expect(ok and dflt, R, R + "/expand-arrays", hir.loc(g.rec), "array arguments are expanded iff the call goes through .apply (default .call)", "array expansion is not tied to `.apply` (default `.call`): the hook's argument list does not match the call")
     # bare calls: [fn ident, undefined] then the arguments
     h = prog.fn("call_expr_transform::replace_call_expr_if_csi_method_without_callee")
     al = [lid for lid, b in h.bindings().items() if b["name"] == "arguments" and b["origin"][0] == "let"]
